@@ -246,7 +246,9 @@ def gen_track_kw(rng, kind: str, nseg: int) -> dict:
               with_mehd=rng.random() < .7)
     if enc:
         kw.update(subsamples=True if kind == "video" else rng.choice([True, False]),
-                  saio_version=rng.choice([0, 1]), saiz_default=rng.random() < .7)
+                  saio_version=rng.choice([0, 1]), saiz_default=rng.random() < .7,
+                  senc_override=rng.choice([False, False, True, 8, 16]),
+                  aux_info_type=rng.choice([False, False, True, "saiz", "saio"]))
     if kw["first_decode_time"] >= 2 ** 32 - 2 * seg_ticks and rng.random() < .5:
         kw["tfdt_version"] = 1
     return kw
@@ -343,6 +345,33 @@ def boundary_specs() -> list[dict]:
          "defaults_cgi": {"bugs": "saio", "playready__piff": "0", "playready__version": "1.0", "events": "ping",
                           "ping__interval": "50"}},
     ]
+
+
+def override_specs() -> list[dict]:
+    """optional / override forms of the per-fragment encryption boxes: senc flag 0x1 (AlgorithmID, IV size
+    and KID in the box, 20 bytes in front of sample_count) with 8- and 16-byte IVs equal to or different
+    from tenc, saiz / saio with aux_info_type present (flag 0x1), saio version 0 / 1, several traf orders,
+    a stored PIFF clone of an override senc, with and without tfdt, both index variants"""
+    out = []
+    grid = [  # (kind, tenc iv, senc_override, aux_info_type, saio_version, traf_order, with_tfdt, aligned)
+        ("video", 8, True, False, 0, "trun_first", True, False),
+        ("video", 16, True, True, 1, "senc_first", False, False),
+        ("video", 8, 16, "saio", 0, "trun,senc,saiz,saio", True, True),
+        ("video", 16, 8, "saiz", 1, "trun,senc,piff,saiz,saio", False, False),
+        ("video", 8, False, True, 0, "saiz,saio,senc,trun", True, False),
+        ("audio", 8, True, True, 1, "senc_first", True, False),
+        ("audio", 16, 16, False, 0, "trun,saio,senc,saiz", False, True),
+        ("audio", 8, False, "saio", 1, "piff,saiz,saio,senc,trun", True, False),
+    ]
+    for j, (kind, iv, ovr, aux, sv, order, tfdt, aligned) in enumerate(grid):
+        kw = dict(timescale=240 if kind == "video" else 48000,
+                  durations=[960, 1000, 900] if kind == "video" else [96000, 96000, 95000],
+                  samples_per_segment=[3, 1, 4], encrypted=True, iv_size=iv, senc_override=ovr, aux_info_type=aux,
+                  saio_version=sv, traf_order=order, with_tfdt=tfdt, subsamples=(kind == "video") or j % 2 == 0,
+                  with_styp=aligned, with_sidx=aligned, payload_size=40, seed=9200 + j,
+                  track_id=1 if kind == "video" else 2, saiz_default=(j % 3 != 0))
+        out.append({kind: kw, "audio" if kind == "video" else "video": None, "aligned": aligned})
+    return out
 
 
 def reader_window() -> tuple[int, int]:
@@ -960,6 +989,13 @@ def fixed_cases() -> list[dict]:
                 for ov in ([{"drm": "all"}, {"drm": "clearkey"}] if t.enc else
                            [{}, {"events": "ping", "ping__interval": "50"}]):
                     cases.append(vod_case(t, k, ov))
+    # override / optional forms of senc, saiz and saio
+    for spec in override_specs():
+        for t in synth_stream(spec):
+            for k in range(1, t.nseg + 1):
+                for ov in ({"drm": "all"}, {"drm": "clearkey"}, {"drm": "playready", "playready__piff": "0", "bugs": "saio"},
+                           {"drm": "playready,playready", "playready__version": "1.0"}):
+                    cases.append(vod_case(t, k, ov))
     # numeric / structural boundaries, stream-level defaults; both addressing modes
     bt: list[Track] = []
     for spec in boundary_specs():
@@ -1087,7 +1123,7 @@ def search(ctx, disagreements):
                 return f
     rng = ctx.rng("search")
     tracks = all_tracks(rng, 60 if not ctx.thorough else 200)
-    for spec in fixed_specs() + size_class_specs() + boundary_specs():
+    for spec in fixed_specs() + size_class_specs() + boundary_specs() + override_specs():
         tracks += synth_stream(spec)
     for c in fixed_cases() + gen_cases(rng, tracks, 2500 if not ctx.thorough else 20000, live_share=.3):
         f = _failing(c)
